@@ -42,7 +42,7 @@
         gives every declared Boolean! variable (and every Boolean variable that has a value or a
         non-null default) a boolean; the one remaining case — a nullable variable with a default,
         explicitly given null — is the case [dirs_evaluable] excludes (see
-        [C01_collect_cache_transparent_refuted_unevaluable]).
+        [C01_collect_cache_transparent_refuted_before_fixd]).
       parse_pos_injective (C06_parse_pos_injective): distinct nodes of a parsed document have
         distinct positions: [doc_positions_okb]; schema.New's name check gives [type_names_okb].
 
@@ -120,22 +120,25 @@ Theorem C01_failure_nulls_visible : forall S D E fuel W p cands,
   end /\ Forall (fun e => exists r, e_path e = p ++ r) cands.
 Proof. exact failure_nulls_visible. Qed.
 
-(** stage 2: the memo cache of collectFields (keyed by object type name and the positions of the
-    selections) is transparent: with and without it the executor returns the same response, for
-    every document (typed or not) whose selection nodes have distinct positions. *)
+(** stage 2 / round 4: the memo cache of collectFields (keyed by object type name and the positions
+    of the selections) is transparent: with and without it the executor returns the same
+    response — data AND errors — for every document (typed or not, directives evaluable or not)
+    whose selection nodes have distinct positions.  Since fix-C01's "report each directive once
+    per operation" this no longer needs [dirs_evaluable]. *)
 Theorem C01_collect_cache_transparent : forall S D E fuel W,
-  type_names_okb S = true -> doc_positions_okb D = true -> dirs_evaluable D E = true ->
+  type_names_okb S = true -> doc_positions_okb D = true ->
   run fixed S D E fuel W = run fixed_nomemo S D E fuel W.
-Proof. exact (fun S D E fuel W Hn Hp Hev => collect_cache_transparent S D E fuel Hn Hp W Hev). Qed.
+Proof. exact (fun S D E fuel W Hn Hp => collect_cache_transparent S D E fuel Hn Hp W). Qed.
 
-(** ... and it is not when a condition cannot be evaluated: collectFields reports the directive's
-    error on a cache miss only ({ l { a @include(if: $s) } }, l a list of two objects, no value for
-    $s: one error with the cache, two without).  This is why [dirs_evaluable] is a hypothesis. *)
-Theorem C01_collect_cache_transparent_refuted_unevaluable :
+(** ... before that repair it was not: collectFields reported a directive whose condition cannot be
+    evaluated on every traversal, i.e. on cache misses only ({ l { a @include(if: $s) } }, l a list
+    of two objects, no value for $s: one error with the cache, two without; now one and one). *)
+Theorem C01_collect_cache_transparent_refuted_before_fixd :
   exists S D E fuel W,
     type_names_okb S = true /\ doc_positions_okb D = true /\ dirs_evaluable D E = false /\
-    exists d e, run fixed S D E fuel W = Done d [e] /\ run fixed_nomemo S D E fuel W = Done d [e; e].
-Proof. exact collect_cache_transparent_refuted_unevaluable. Qed.
+    exists d e, run before_fixd S D E fuel W = Done d [e] /\ run before_fixd_nomemo S D E fuel W = Done d [e; e] /\
+                run fixed S D E fuel W = Done d [e] /\ run fixed_nomemo S D E fuel W = Done d [e].
+Proof. exact collect_cache_transparent_refuted_before_fixd. Qed.
 
 (** stage B: GetOperation.  The executor's loop over the definitions selects exactly the operation
     the specification determines (no name: the only operation; a name: the only operation of
@@ -288,7 +291,7 @@ Proof. exact exec_data_finite_refuted_before_fix7. Qed.
 
 Print Assumptions C01_exec_total.
 Print Assumptions C01_exec_total_default_fuel.
-Print Assumptions C01_collect_cache_transparent_refuted_unevaluable.
+Print Assumptions C01_collect_cache_transparent_refuted_before_fixd.
 Print Assumptions C01_get_operation_refines_spec.
 Print Assumptions C01_run_request_selected.
 Print Assumptions C01_run_request_vars_refused.
